@@ -44,14 +44,16 @@ def tasks(tier):
             nb = (4 if algo == "RainbowDQN" else 5) ** n
             per = {4: {"DQN": 40, "CQN": 20, "RainbowDQN": 64}, 5: {"DQN": 8, "CQN": 5, "RainbowDQN": 128}}.get(n, {}).get(algo, nb)
             k = max(1, -(-nb // per))
+            M = 2 ** n - 1
+            per_bias = {"DQN": 3 * (M + 1) * 4 * 4 ** n * 4e-6, "CQN": 12 * M * 4 ** n * 1.5e-6, "RainbowDQN": 0.004}[algo] + 0.002   # ~seconds
             for c in range(k):
-                out.append({"algo": algo, "n": n, "mode": "W", "chunk": [c, k], "_cost": (nb / k) * {4: 16, 5: 200}.get(n, 2) * (0.2 if algo == "RainbowDQN" else 1)})
+                out.append({"algo": algo, "n": n, "mode": "W", "chunk": [c, k], "_cost": (nb / k) * per_bias})
             for kind in cm.OBS_KINDS:
                 if n <= 2 or algo == "RainbowDQN":
-                    out.append({"algo": algo, "n": n, "mode": "S", "obs": kind, "batches": cm.BATCHES, "_cost": 30 * n * n * (0.1 if algo == "RainbowDQN" else 1)})
+                    out.append({"algo": algo, "n": n, "mode": "S", "obs": kind, "batches": cm.BATCHES, "_cost": (1 if algo == "RainbowDQN" else 4 * n * n)})
                 else:
                     for b in cm.BATCHES:
-                        out.append({"algo": algo, "n": n, "mode": "S", "obs": kind, "batches": [b], "_cost": 10 * n * n * (3 if tier == "thorough" else 1)})
+                        out.append({"algo": algo, "n": n, "mode": "S", "obs": kind, "batches": [b], "_cost": (2 ** n) * (1.0 if tier == "thorough" else 0.3)})
     return out
 
 
